@@ -866,7 +866,7 @@ class Conditioned:
         if accepts_prev_gains(self.evaluator):
             kwargs = kwargs.copy()
             kwargs['prev_gains'] = prev_gains
-        if accepts_seats(self.evaluator):
+        if _passes_seats(self.evaluator, n_seats):
             return self.evaluator.evaluate(
                 elim_votes, n_seats, **kwargs
             )
@@ -1030,7 +1030,7 @@ class ByConstituency:
             # select candidates that passed national level conditions
             nat_agg = votelib.convert.VoteTotals()
             nat_votes = nat_agg.convert(votes)
-            if accepts_seats(self.preselector):
+            if _passes_seats(self.preselector, n_seats):
                 return self.preselector.evaluate(nat_votes, n_seats)
             else:
                 return self.preselector.evaluate(nat_votes)
@@ -1167,7 +1167,7 @@ class ByParty:
         :returns: Results of the evaluation by constituency.
         """
         overall_votes = votelib.convert.VoteTotals().convert(votes)
-        if accepts_seats(self.overall_evaluator):
+        if _passes_seats(self.overall_evaluator, n_seats):
             overall_result = self.overall_evaluator.evaluate(
                 overall_votes, n_seats
             )
@@ -1337,6 +1337,31 @@ def accepts_seats(evaluator: Evaluator) -> bool:
                     return accepts_seats(getattr(evaluator, attr))
             return True
         return False
+
+
+def seats_optional(evaluator: Evaluator) -> bool:
+    """Whether evaluate() can be called without a seat count argument."""
+    params = inspect.signature(evaluator.evaluate).parameters
+    if 'n_seats' in params:
+        return params['n_seats'].default is not inspect.Parameter.empty
+    elif _has_generic(params):
+        # a wrapper passing its arguments through: ask the wrapped evaluator
+        for attr in ('evaluator', 'main'):
+            if hasattr(evaluator, attr):
+                return seats_optional(getattr(evaluator, attr))
+    return True
+
+
+def _passes_seats(evaluator: Evaluator, n_seats: Any) -> bool:
+    """Whether a wrapper hands its n_seats on to the evaluator.
+
+    A wrapper's own default ``n_seats=None`` means that no seat count was
+    given; it is only handed on (as None) to evaluators that cannot be called
+    without a seat count argument.
+    """
+    return accepts_seats(evaluator) and (
+        n_seats is not None or not seats_optional(evaluator)
+    )
 
 
 def accepts_prev_gains(evaluator: Evaluator) -> bool:
